@@ -188,15 +188,6 @@ const vC12Other = protocol.ID("/other/1.0.0")
 var vC12FailKinds = []string{"reqerr", "dead", "dialslow", "silent", "flaky"}
 var vC12OkKinds = []string{"ok", "ok", "ok", "ok", "ok", "slow", "empty", "liarself", "stranger"}
 
-func vC12Failing(kind string) bool {
-	for _, k := range vC12FailKinds {
-		if k == kind {
-			return true
-		}
-	}
-	return false
-}
-
 func vC12New(t *testing.T, c *vh.Case, cfg vC12Cfg, conc bool) *vC12Mon {
 	m := &vC12Mon{c: c, cfg: cfg, conc: conc, health: map[peer.ID]string{}, delay: map[peer.ID]time.Duration{},
 		hasProto: map[peer.ID]bool{}, protoTL: map[peer.ID][]vC12ProtoTL{}, byKey: map[string]*vC12Lookup{},
@@ -1326,7 +1317,7 @@ func (m *vC12Mon) runHistory(t *testing.T) {
 }
 
 func TestVerif_C12_histories(t *testing.T) {
-	vh.Run(t, vh.Spec{Prop: "C12", Unit: "histories", Quick: 400, Thorough: 16000, CostMs: 60,
+	vh.Run(t, vh.Spec{Prop: "C12", Unit: "histories", Quick: 400, Thorough: 16000, CostMs: 100,
 		Rule:    "PRNG histories of 8-16 steps over 3-15 simulated peers (K in {24,40} so that no bucket fills; alpha in {1,3,10,K}; beta = K or, in a third of the cases, 1/3 with follow-up phase; optional generated routing-table filter; refresh period 20 s-5 min, query timeout 4/10 s, sender read timeout 3/10 s, lookup-check concurrency 256/1/2; fix-low-peers loop running): burst connect+identify, identify with/without the DHT protocol, protocol removed/added, health flips (ok, slow, empty answer, liar naming self/strangers, request error, dead, slow dial failure, silent, flaky), disconnect, GetClosestPeers (plain / cancelled at a PRNG instant or exactly at a reply instant / pre-cancelled), RefreshRoutingTable/ForceRefresh (1-3 at once), idle beyond the ping grace period, identify event for the local node, Close in four variants with refresh requests before/during/after; every step ends at a rest point in virtual time where PeerAdded/PeerRemoved callbacks, ListPeers and the refresh channels are judged against the simulated wire log; non-trivial = at least one admission and one eviction; distinct by (shape, step kinds, #adds, #removals)",
 		Clauses: []string{"never-self", "admit-after-reply", "admit-fresh-reply", "probe-admission-valid", "removal-justified", "failed-member-removed", "failed-member-absent", "cancel-only-retained", "callbacks-match-table", "refresh-answered", "refresh-one-value", "refresh-answered-shutdown"}},
 		func(c *vh.Case) {
